@@ -4,6 +4,19 @@ from harness.drivers import contract
 
 
 def run(ck):
+    # Machine.tla: TLC checks Impl |= Props on the bounded instance and exports programs (spec -> code)
+    from vlib import machine
+    from harness import gen as _gen
+    _tids = _gen.Tids(100000)
+    mprogs = []
+    mprogs += machine.run_machine(ck, "Z2", "abelian", "PoolZ2s", "OpsContract", rank=2, depth=3, mod=150, tids=_tids)
+    if ck.tier != "quick":
+        mprogs += machine.run_machine(ck, "U1", "abelian", "PoolU1s", "OpsContract", rank=2, depth=3, mod=100, tids=_tids)
+    if ck.tier != "quick":
+        mprogs += machine.run_machine(ck, "Z2Z2", "abelian", "PoolZ2Z2", "OpsContract", rank=2, depth=3, mod=150, tids=_tids)
+    if ck.tier != "quick":
+        mprogs += machine.run_machine(ck, "Z4", "abelian", "PoolZ4", "OpsContract", rank=2, depth=3, mod=150, tids=_tids)
+    ck.conform(mprogs)
     n = 160 if ck.tier == "quick" else 2500
     tids = gen.Tids()
     progs = contract.programs(ck.seed, n, "abelian", tids=tids)
